@@ -156,6 +156,10 @@ pub struct RecCollect {
     pub handle_ids: bool,
     /// per-handle id -> the id `new_span` returned for that span
     aliases: Mutex<HashMap<u64, u64>>,
+    /// when true the collector finishes configuring itself in `on_register_dispatch` (the hook a `Dispatch` calls
+    /// before it asks the collector anything): until then it rejects everything and hints OFF
+    pub late_init: bool,
+    inited: AtomicBool,
 }
 
 thread_local! {
@@ -200,13 +204,20 @@ impl tracing_core::field::Visit for ValVisitor {
 
 impl RecCollect {
     pub fn new(k: usize, filter: FilterSpec) -> Self {
-        RecCollect { k, filter, flipped: AtomicBool::new(false), next_id: AtomicU64::new(1 + k as u64 * 1_000_000), self_check: true, metas: Mutex::new(HashMap::new()), handle_ids: false, aliases: Mutex::new(HashMap::new()) }
+        RecCollect { k, filter, flipped: AtomicBool::new(false), next_id: AtomicU64::new(1 + k as u64 * 1_000_000), self_check: true, metas: Mutex::new(HashMap::new()), handle_ids: false, aliases: Mutex::new(HashMap::new()), late_init: false, inited: AtomicBool::new(false) }
     }
     fn log(&self, kind: &'static str, meta: Option<&Metadata<'_>>, id: u64, id2: u64, val: u64, flag: bool) {
         let (site, skind, name) = meta.map(site_of).unwrap_or((-1, 9, ""));
         let r = Rec { stamp: detsim::stamp(), thread: detsim::current(), k: self.k, kind, site, skind, name, id, id2, val, flag };
         ev(format!("c{} t{} {} s{} k{} id{} {} v{} {}", r.k, r.thread, kind, site, skind, id, id2, val, flag));
         LOG.lock().unwrap().push(r);
+    }
+    pub fn with_late_init(mut self) -> Self {
+        self.late_init = true;
+        self
+    }
+    fn unconfigured(&self) -> bool {
+        self.late_init && !self.inited.load(Ordering::SeqCst)
     }
     pub fn with_handle_ids(mut self) -> Self {
         self.handle_ids = true;
@@ -217,6 +228,9 @@ impl RecCollect {
     }
     pub fn accepts_meta(&self, meta: &Metadata<'_>) -> bool {
         let lvl = sites::level_num(meta.level());
+        if self.unconfigured() {
+            return false;
+        }
         match sites::target_idx(meta.target()) {
             Some(t) => self.filter.accept(lvl, t, self.flipped.load(Ordering::SeqCst)),
             None => false,
@@ -228,6 +242,7 @@ impl Collect for RecCollect {
     fn register_callsite(&self, meta: &'static Metadata<'static>) -> Interest {
         let lvl = sites::level_num(meta.level());
         let i = match sites::target_idx(meta.target()) {
+            _ if self.unconfigured() => Interest::never(),
             None => Interest::never(),
             Some(t) => {
                 if self.filter.is_dynamic_for(t) {
@@ -248,6 +263,9 @@ impl Collect for RecCollect {
         r
     }
     fn max_level_hint(&self) -> Option<LevelFilter> {
+        if self.unconfigured() {
+            return Some(LevelFilter::OFF);
+        }
         self.filter.hint_level_in(self.flipped.load(Ordering::SeqCst)).map(lf)
     }
     fn new_span(&self, attrs: &Attributes<'_>) -> Id {
@@ -332,6 +350,7 @@ impl Collect for RecCollect {
         }
     }
     fn on_register_dispatch(&self, _d: &tracing_core::Dispatch) {
+        self.inited.store(true, Ordering::SeqCst);
         self.log("on_register_dispatch", None, 0, 0, 0, true);
     }
 }
